@@ -46,9 +46,13 @@ pub fn check_final(case: &C04Case, tr: &Trace) -> Result<Vec<&'static str>, Fail
     };
     let first_success = r_fin.iter().find(|(_, f)| success(f)).map(|x| x.0);
     // a sending entity reports success only for a transaction its receiver reported as successfully delivered
+    // (for this clause "success" is what the sender's user sees of it: condition NoError and delivery code Complete - the file
+    // status is relayed as it came and is compared elsewhere)
+    let loose = |f: &cfdp_core::daemon::FinishedIndication| f.report.condition == Condition::NoError && f.delivery_code == DeliveryCode::Complete;
+    let first_loose = r_fin.iter().find(|(_, f)| loose(f)).map(|x| x.0);
     if sc.entities[p.from].present {
         for (t, f) in tr.finished_inds(p.from, id) {
-            if success(f) && first_success.map(|fs| fs > t).unwrap_or(true) {
+            if loose(f) && first_loose.map(|fs| fs > t).unwrap_or(true) {
                 return Err(fail(tr, "sender-success-without-receiver-success", format!("the sender reported success at {t} ms; receiver's first success: {first_success:?}")));
             }
         }
@@ -337,7 +341,7 @@ pub fn run(ctx: &mut Ctx) {
     ctx.rule = "puppet sender vs real receiver: {file transfer, requests-only} x {Modular, Null} x 6 request lists (none, append, create+append, rename+create, append+failing delete+not performed, mkdir+create+append) x \
 every single late PDU and every ordered pair out of {Metadata, EOF, Prompt(NAK), Prompt(keep-alive), each data segment} delivered 200 ms after completion x ACK(Finished) sent or never x deferred/immediate NAK (exhaustive); \
 the same with 1..5 stragglers at sampled moments of the whole Finished/ACK wait (incl. the millisecond of completion, of each Finished retransmission and of the ACK); real sender vs real receiver: sizes {0, 40, 100} x checksum x request lists x ACK(EOF), Finished, ACK(Finished) each lost 0/1/2 times (27 combinations, exhaustive) x 2 NAK procedures. \
-Non-trivial = at least one PDU other than ACK(Finished) reached the receive transaction between its first success and its end; distinct by scenario."
+plus the same handshake losses with one bit of the file data flipped on a link without CRC (the receiver fails at finalisation with delivery code Complete; the sender must not report success). Non-trivial = at least one PDU other than ACK(Finished) reached the receive transaction between its first success and its end; distinct by scenario."
         .into();
     ctx.assumptions = vec![
         "side effects are judged at the end of the run against the model with the requests applied once (C13 validates the model itself)".into(),
@@ -435,6 +439,25 @@ Non-trivial = at least one PDU other than ACK(Finished) reached the receive tran
         let nak = if rng.chance(1, 2) { NakSpec { immediate: false, delay_ms: 0 } } else { NakSpec { immediate: true, delay_ms: *rng.pick(&[0u64, 50]) } };
         build_puppet_timed(with_file, null, &reqs, &late, Some(&times), ack_fin, Some(ack_at), nak, rng.next())
     });
+    // the receiver holds every byte but the delivery fails at finalisation (no CRC on the link, one bit of the file data flipped,
+    // modular checksum): its Finished PDU carries the fault with delivery code Complete - the sender must not turn that into a success
+    for size in [40u32, 100] {
+        for reqs in &reqsets {
+            for nak in [NakSpec { immediate: false, delay_ms: 0 }, NakSpec { immediate: true, delay_ms: 0 }] {
+                for lost in [(0u32, 0u32, 0u32), (0, 1, 0), (1, 0, 1)] {
+                    for hit in [1u32, 2] {
+                        k += 1;
+                        let mut c = build_real(size, false, reqs, lost, nak.clone(), mix(ctx.seed, k));
+                        for e in c.sc.entities.iter_mut() {
+                            e.cfg.crc = false;
+                        }
+                        c.sc.faults.push(Fault { from: 0, to: 1, ordinal: hit, kind: FaultKind::CorruptData { frac: (k * 7919 % 65536) as u16 } });
+                        cases.push(c);
+                    }
+                }
+            }
+        }
+    }
     ctx.section = "real-sender-handshake-losses".into();
     ctx.drive_list(&part, cases, true);
     ctx.section.clear();
